@@ -898,7 +898,7 @@ Proof. vm_compute. repeat split; reflexivity. Qed.
 From Verif Require Import Model.BM Proofs.BMProofs Proofs.BMCompose.
 
 (* newBmPrefix never faults and never runs out of its own fuel on a non-empty pattern of non-negative
-   runes (after lower-casing); it answers nil exactly for a rune beyond U+FFFF; a machine it returns has
+   runes (after lower-casing); when it answers nil some rune lies beyond U+FFFF; a machine it returns has
    sound tables *)
 Theorem C03_bm_new_total :
   forall (lower : Z -> Z) (pattern : list Z) (ci rtl : bool),
